@@ -74,6 +74,7 @@ type c15Fault struct {
 }
 
 type c15Result struct {
+	skipped    bool     // the fault does not apply to this stream
 	records    [][]byte // packed records delivered (all envelopes)
 	errIndex   int      // index of the first envelope with Error != nil, -1 if none
 	envelopes  int
@@ -204,6 +205,24 @@ func c15Run(w *core.W, q *dns.Msg, envs [][]*model.Rec, tsig bool, f c15Fault, r
 	if f.kind == "extra-after-end" {
 		extra := &model.Msg{ID: id, Bits: 0x8400, An: envs[0]}
 		all = append(all, frame(extra.Wire())...)
+	}
+	if f.kind == "eof-boundary" {
+		// the connection ends exactly between two records (or after the header or the question) of
+		// an envelope: what has arrived of that envelope is a well-formed shorter message
+		var bnds []int
+		base := 0
+		for _, fr := range frames {
+			for _, o := range msgBoundaries(fr[2:]) {
+				if base+2+o < len(all) {
+					bnds = append(bnds, base+2+o)
+				}
+			}
+			base += len(fr)
+		}
+		if len(bnds) == 0 {
+			return c15Result{skipped: true}
+		}
+		f.kind, f.at = "eof", bnds[f.at%len(bnds)]
 	}
 	// how the octets reach the secondary: in one piece, with the first length prefix split, octet by
 	// octet, or in seeded chunks (segment boundaries inside length prefixes and headers)
@@ -413,7 +432,7 @@ func c15Faulty(w *core.W, s c15Stream, zone model.Name, comp uint64, tsig bool, 
 		}
 	}
 	envs := compose(stream, comp)
-	if f.at >= len(envs) && f.kind != "eof" {
+	if f.at >= len(envs) && f.kind != "eof" && f.kind != "eof-boundary" {
 		f.at = len(envs) - 1
 	}
 	if (f.kind == "reorder") && f.at+1 >= len(envs) {
@@ -435,6 +454,9 @@ func c15Faulty(w *core.W, s c15Stream, zone model.Name, comp uint64, tsig bool, 
 		}
 	}
 	res := c15Run(w, s.query(zone, id), envs, tsig, f, rcode)
+	if res.skipped {
+		return
+	}
 	w.Eval(1)
 	w.Count("transfers_faulty", 1)
 	w.Cover("fault", f.kind)
@@ -687,6 +709,55 @@ func c15Case(w *core.W, j int) {
 	for _, o := range offs {
 		c15Faulty(w, s, zone, comps[len(comps)/2], tsig, id, c15Fault{kind: "eof", at: o}, 0)
 	}
+	// EOF at every record boundary of every envelope (all-in-one and the middle composition)
+	for _, c := range []uint64{comps[0], comps[len(comps)/2]} {
+		for k := 0; k < len(s.recs)+3*len(compose(s.recs, c)) && k < 40; k++ {
+			c15Faulty(w, s, zone, c, tsig, id, c15Fault{kind: "eof-boundary", at: k}, 0)
+		}
+	}
+}
+
+// msgBoundaries returns the offsets inside a wire message at which a record (or the question
+// section) ends: after the header, after each question, after each record.
+func msgBoundaries(msg []byte) []int {
+	if len(msg) < 12 {
+		return nil
+	}
+	skipName := func(off int) int {
+		for off < len(msg) {
+			c := int(msg[off])
+			switch {
+			case c == 0:
+				return off + 1
+			case c&0xC0 == 0xC0:
+				return off + 2
+			default:
+				off += 1 + c
+			}
+		}
+		return -1
+	}
+	out := []int{12}
+	off := 12
+	for q := int(binary.BigEndian.Uint16(msg[4:])); q > 0; q-- {
+		if off = skipName(off); off < 0 || off+4 > len(msg) {
+			return out
+		}
+		off += 4
+		out = append(out, off)
+	}
+	n := int(binary.BigEndian.Uint16(msg[6:])) + int(binary.BigEndian.Uint16(msg[8:])) + int(binary.BigEndian.Uint16(msg[10:]))
+	for ; n > 0; n-- {
+		if off = skipName(off); off < 0 || off+10 > len(msg) {
+			return out
+		}
+		off += 10 + int(binary.BigEndian.Uint16(msg[off+8:]))
+		if off > len(msg) {
+			return out
+		}
+		out = append(out, off)
+	}
+	return out
 }
 
 func init() {
